@@ -174,7 +174,7 @@ class C07(Engine):
             vs += self.check_I1(o, "garbage")
             pops = o.get("pops") or []
             unmatched = [p for p in pops if p[3] is None]
-            if unmatched and o.get("end") not in ("internal", "hang", "slow"):
+            if unmatched and o.get("end") not in ("internal", "hang", "slow", "invalid-scenario"):
                 out = strip_ansi(o.get("stdout", ""))
                 name = sc["ops"][0]["argv"][-1]
                 fatal = (not o.get("reports")) and f"{name}: Error!\n\t" in out and isinstance(o.get("exit"), int) and o.get("exit") != 0
